@@ -38,6 +38,7 @@ verus! {
 //@include spec/sem_laws.rs
 //@include spec/labs.rs
 //@include spec/ext.rs
+//@include spec/indep_ext.rs
 //@fmtfns
 
 //@assume eval_node
@@ -84,6 +85,10 @@ verus! {
 //@verify model_check_multiple_extended_formulae_dirty
 //@verify _model_check_extended_formula_dirty
 //@verify model_check_extended_formula_dirty
+//@verify _model_check_multiple_extended_formulae
+//@verify model_check_multiple_extended_formulae
+//@verify _model_check_extended_formula
+//@verify model_check_extended_formula
 
 fn main() {}
 } // verus!
